@@ -145,12 +145,42 @@ def fstrings(r):
     return ''.join(out)
 
 
+BLOCKS = ['if a:\n    x = 1\nelif b:\n    y = 2\nelse:\n    z = 3\n', 'try:\n    pass\nexcept E:\n    pass\nfinally:\n    pass\n',
+          '@dec\n@dec2(1)\ndef f(a):\n    return a\n', 'class C(B):\n    @property\n    def m(self):\n        return 1\n    x = 2\n',
+          'for i in j:\n    try:\n        pass\n    except E:\n        continue\nelse:\n    pass\n', 'with a as b:\n    if c:\n        d()\n    e()\n',
+          'while 1:\n    x = (1,\n         2)\n    break\n', 'async def g():\n    async with a:\n        await b\n', 'def h():\n    """doc"""\n    if x:\n        return\n    yield 1\n',
+          'try:\n    a\nexcept:\n    b\n', 'if x: pass\nelse: pass\n', 'match x:\n    case 1:\n        pass\n    case _:\n        pass\n']
+
+
+def reindent(r):
+    """valid block-structured programs whose indentation is perturbed line by line: dedents to columns that are not on the
+    indent stack, over-indented lines, whole blocks shifted - the inputs that drive error recovery through INDENT/ERROR_DEDENT"""
+    out = []
+    for _ in range(r.randint(1, 3)):
+        blk = r.choice(BLOCKS)
+        base = r.choice([0, 0, 4, 8, 2])
+        if base:
+            out.append(r.choice(['if a:\n', 'def w():\n', 'class W:\n', 'try:\n', 'for p in q:\n']))
+        unit = r.choice([4, 4, 2, 8, 3])
+        mode = r.random()
+        for ln in blk.splitlines(True):
+            body = ln.lstrip(' ')
+            ind = (len(ln) - len(body)) // 4 * unit + base
+            if mode < 0.6 and r.random() < 0.25:
+                ind = max(0, ind + r.choice([-6, -4, -3, -2, -1, 1, 2, 4]))
+            out.append(' ' * ind + body)
+    s = ''.join(out)
+    if r.random() < 0.2:
+        s = s.replace('\n', r.choice(['\r\n', '\r']))
+    return s
+
+
 def derived_any(r):
     return derived(r, r.choice(['3.6', '3.8', '3.10', '3.12', '3.14']))
 
 
 KINDS = [('garbage', garbage, 25), ('lines', lines, 15), ('oneliner', oneliner, 30), ('valid', valid, 10),
-         ('mutate', mutate, 15), ('corpus', corpus, 5), ('derived', derived_any, 10), ('fstrings', fstrings, 20)]
+         ('mutate', mutate, 15), ('corpus', corpus, 5), ('derived', derived_any, 10), ('fstrings', fstrings, 20), ('reindent', reindent, 25)]
 
 
 def text_case(seed, stream, index, kinds=None):
